@@ -27,7 +27,7 @@ def main():
     for c in cases:
         if flt and flt not in c["name"]:
             continue
-        if only_prop and only_prop not in c["props"]:
+        if only_prop and (only_prop not in c["props"] or c.get("only_full")):
             continue
         wt = tempfile.mkdtemp(prefix="st_", dir=root)
         os.rmdir(wt)
